@@ -176,6 +176,8 @@ func (g *c17gen) plainTag(c c17ctx) string {
 		return g.r.pick(c17ArchWords)
 	case 5:
 		return "ignore"
+	case 6:
+		return fmt.Sprintf("go1.%d", 1+g.r.intn(40)) // canonical release tags (C17_plusbuild_partial covers them)
 	default:
 		return g.r.pick(c17CustomTags)
 	}
